@@ -267,7 +267,12 @@ def _inter_task(task):
         return src.points
 
     try:
-        _, ex = enumerate_scripts(run)
+        import time as _t
+
+        dl = (_t.time() + task["time_cap"]) if task.get("time_cap") else None
+        if task.get("deadline_abs"):
+            dl = min(dl, task["deadline_abs"]) if dl else task["deadline_abs"]
+        _, ex = enumerate_scripts(run, deadline=dl)
     except _Stop:
         ex = False
     st.exhaustive = ex
